@@ -268,7 +268,14 @@ V(name, ok) == ok \/ (/\ PrintT(<<"VERDICT", name, l, cur.t, cur.i>>)
 \* Conformance with Concurrency.tla (ReadLockWhileOpen), not a property clause: with no call in flight an open, initialised
 \* DB holds a LIVE read transaction.  A false value is printed as a NOTE line (reported in the evidence, never a verdict).
 N(name, ok) == ok \/ PrintT(<<"NOTE", name, l, cur.t, cur.i>>)
-N_ReadLockWhileOpen == N("ReadLockWhileOpen", (Quiescent /\ cur.op \notin {"Reset", "Audit", "ParApp"} /\ cur.res # "at" /\ cur.op \notin {"CkStart", "CkStep", "CkCancel"}
+\* a step-by-step checkpoint is parked at a hook (it holds the executor and may have released the read transaction)
+RECURSIVE GateInFlight(_)
+GateInFlight(k) ==
+  IF k < 1 \/ Log[k].op = "Reset" THEN FALSE
+  ELSE IF Log[k].op \in {"CkStart", "CkStep"} THEN Log[k].res = "at"
+  ELSE IF Log[k].op \in {"LsOpen", "LsSync", "LsReplicaSync", "LsSyncAndWait", "LsCheckpoint", "LsClose", "Snapshot", "Compact"} THEN FALSE
+  ELSE GateInFlight(k - 1)
+N_ReadLockWhileOpen == N("ReadLockWhileOpen", (Quiescent /\ cur.op \notin {"Reset", "Audit", "ParApp"} /\ cur.res # "at" /\ cur.op \notin {"CkStart", "CkStep", "CkCancel"} /\ ~GateInFlight(l)
                                                   /\ cur.open /\ cur.handles /\ cur.up /\ cur.execFree) => cur.hasRead)
 
 C06_CompactedEqualsInputs == V("C06_CompactedEqualsInputs", C06_CompactedEqualsInputs_)
